@@ -17,6 +17,8 @@ mod extract_t3; // T3 (C19/C17): derive sets -> Generated/Derives.lean
 mod extract_t7; // T7 (C15): is_crate predicates, MacroSettings collection kinds -> Generated/Frontends.lean
 #[path = "../extract_t9.rs"]
 mod extract_t9; // T9 (C01): panic sites reachable from to_stream -> Generated/PanicSites.lean
+#[path = "../extract_t10.rs"]
+mod extract_t10; // T10 (C11): emitted Display / FromStr / TryFrom / Deref templates -> Generated/Templates.lean
 
 struct FnFinder<'a> {
     name: &'a str,
@@ -190,6 +192,7 @@ fn main() {
     extract_t3::t3_derives(repo, outdir);
     extract_t7::t7_frontends(repo, outdir);
     extract_t9::t9_panic_sites(repo, outdir);
+    extract_t10::t10_templates(repo, outdir);
     if let Some(msg) = t5_problem {
         fail(&msg);
     }
